@@ -1,0 +1,18 @@
+//go:build verif
+
+// Machine-checked contracts for package metainfogen (comment-only; read by /verif/govc).
+// Property C02: the configured piece length is the one of the largest file-size threshold that is
+// not above the blob size (the smallest threshold's if the blob is smaller than all of them).
+
+package metainfogen
+
+//@ specfunc plsorted(c *pieceLengthConfig) bool = forall i int, j int :: 0 <= i && i < j && j < len(c.ranges) ==> c.ranges[i].fileSize <= c.ranges[j].fileSize
+
+//@ func pieceLengthConfig.get
+//@   requires c != nil && len(c.ranges) >= 1 && plsorted(c)
+//@   nopanic
+//@   ensures below_all: (forall i int :: 0 <= i && i < len(c.ranges) ==> fileSize < c.ranges[i].fileSize) ==> result == c.ranges[0].pieceLength
+//@   ensures largest_not_above: forall i int :: 0 <= i && i < len(c.ranges) && c.ranges[i].fileSize <= fileSize && (i == len(c.ranges) - 1 || fileSize < c.ranges[i + 1].fileSize) ==> result == c.ranges[i].pieceLength
+//@   loop 0 invariant idx: 0 - 1 <= rangeindex && rangeindex < len(c.ranges)
+//@   loop 0 invariant passed: forall j int :: 0 <= j && j <= rangeindex ==> c.ranges[j].fileSize <= fileSize
+//@   loop 0 invariant current: (rangeindex >= 0 ==> pieceLength == c.ranges[rangeindex].pieceLength) && (rangeindex < 0 ==> pieceLength == c.ranges[0].pieceLength)
